@@ -230,6 +230,54 @@ V("C18", "C18.R6", "c18-type-tests-not-shifted", "shroud/wrapl.py",
   "fmt.iarg = iarg + this_offset", "fmt.iarg = iarg", "fire", "type-test-slot")
 V("C18", "C18.R6", "c18-ctor-shifted-too", "shroud/wrapl.py",
   "            if cls and not is_ctor:\n                this_offset = 1", "            if cls:\n                this_offset = 1", "fire", "wrap_function")
+V("C04", "C04.R14", "c04-callback-result-from-enclosing-function", "shroud/wrapf.py",
+  """                        rtypemap = arg.typemap
+""", """                        rtypemap = ast.typemap
+""", "fire", "dump_abstract_interfaces:decl")
+V("C04", "C04.R14", "c04-callback-result-kind-not-imported", "shroud/wrapf.py",
+  """                        self.update_f_module(
+                            modules, imports,
+                            rtypemap.f_c_module or rtypemap.f_module)
+""", "", "fire", "result-import")
+V("C16", "C16.R1", "c16-description-unsplit-without-trailing-newline", "shroud/util.py",
+  """            lines = docs["description"].split("\\n")
+            if lines[-1] == "":
+                lines.pop()  # remove trailing newline
+""", """            desc = docs["description"]
+            if desc.endswith("\\n"):
+                lines = docs["description"].split("\\n")
+                lines.pop()  # remove trailing newline
+            else:
+                lines = [desc]
+""", "fire", "description-lines")
+V("C17", "C17.R11", "c17-parameter-list-accepts-trailing-comma", "shroud/declast.py",
+  """                if self.token.typ == "RPAREN":
+                    self.error_msg("Expected a parameter after ',', found {}",
+                                   self.token.typ)
+""", "", "fire", "parameter_list:separator-loop")
+V("C17", "C17.R11", "c17-initializer-returns-none", "shroud/declast.py",
+  """            self.error_msg("Expected a value after '=', found {}",
+                           self.token.typ)
+        self.exit("initializer")""", """            value = None
+        self.exit("initializer")""", "fire", "initializer:no-value")
+V("C17", "C17.R12", "c17-language-not-checked", "shroud/ast.py",
+  """        if not isinstance(language, str):
+            raise RuntimeError("language must be 'c' or 'c++'")
+""", "", "fire", "language:str")
+V("C17", "C17.R12", "c17-declaration-item-not-checked", "shroud/ast.py",
+  """        if not isinstance(subnode, dict):""", """        if False:""", "fire", "subnode:dict")
+V("C17", "C17.R12", "c17-rank-lower-bound-dropped", "shroud/generate.py",
+  """            if attrs["rank"] < 0 or attrs["rank"] > 7:""", """            if attrs["rank"] > 7:""", "fire", "range[0-7]")
+V("C17", "C17.R12", "c17-wrap-as-unchecked", "shroud/ast.py",
+  """        if self.wrap_as not in ["class", "struct"]:""", """        if False:""", "fire", "wrap_as")
+V("C17", "C17.R12", "c17-typemap-header-isinstance-equivalent", "shroud/typemap.py",
+  """                elif isinstance(value, str):
+                    setattr(self, key, value.split())""", """                elif isinstance(value, (str,)):
+                    setattr(self, key, value.split())""", "silent", "")
+V("C17", "C17.R11", "c17-typedef-name-not-required", "shroud/ast.py",
+  """        if name is None:
+            raise RuntimeError("typedef does not name a type: " + decl)
+""", "", "fire", "add_typedef:name-required")
 V("C05", "C05.R16", "c05-ctor-default-returns-nullptr", "shroud/wrapp.py",
   '                "return {PY_error_return};\\n"\n#                "goto fail;\\n"',
   '                "return {nullptr};\\n"\n#                "goto fail;\\n"', "fire", "wrap_function:return {nullptr}")
